@@ -111,7 +111,8 @@ def run_line(ctx, p):
         ctx.judge('incidence', c <= TOL, dict(sig, kind='pluecker_constraint'), lambda: '%s: v.w/(|v||w|) = %.3g' % (what(), c))
         # point(lambda) on the line, spaced by lambda along the unit direction from pp
         lams = p['lams']
-        pts = np.asarray(L.point(lams), dtype=np.float64)
+        # (the parameters as a list, a tuple, a 1-D array, a row or a column: point() reads them with getvector)
+        pts = np.asarray(L.point(gen.as_form(lams, p.get('lamform', 'list'))), dtype=np.float64)
         ok = pts.shape == (3, len(lams))
         if ok:
             for k, lam in enumerate(lams):
@@ -425,7 +426,14 @@ def REACH():
 
 # ----------------------------------------------------------------------------- workload
 def direction(rng):
-    return gen.unit_axis(rng) * (1.0 if rng.random() < 0.2 else gen.logu(rng, 1e-3, 1e3))
+    r_ = rng.random()
+    if r_ < 0.12:
+        # nearly of unit length, not exactly: a unit vector typed in to six decimals, one that passed through single precision,
+        # one scaled by 1 +- 1e-9 .. 1e-5
+        a = gen.unit_axis(rng)
+        k = rng.integers(3)
+        return np.round(a, 6) if k == 0 else a.astype(np.float32).astype(np.float64) if k == 1 else a * (1 + gen.sign(rng) * gen.logu(rng, 1e-9, 1e-5))
+    return gen.unit_axis(rng) * (1.0 if r_ < 0.3 else gen.logu(rng, 1e-3, 1e3))
 
 
 def point(rng):
@@ -448,7 +456,8 @@ def run(ctx):
             Q = P + direction(rng)
         else:
             Q = direction(rng)
-        p = dict(ctor=ctor, P=P, Q=Q, x=point(rng), lams=[0.0, float(rng.uniform(-5, 5)), float(gen.sign(rng) * gen.logu(rng, 1e-3, 1e3))])
+        p = dict(ctor=ctor, P=P, Q=Q, x=point(rng), lams=[0.0, float(rng.uniform(-5, 5)), float(gen.sign(rng) * gen.logu(rng, 1e-3, 1e3))][:int(rng.integers(1, 4))] + [float(rng.uniform(-5, 5)) for _ in range(int(rng.integers(0, 3)))],
+                 lamform=['list', 'tuple', 'array', 'row', 'col'][rng.integers(5)])
         drive(RUNNERS, ctx, 'line', p)
         if rng.random() < 0.5:
             drive(RUNNERS, ctx, 'transform', dict(p, T=gen.se3(rng, hi=1e3)))
